@@ -218,6 +218,9 @@ def peerObj (p : Nat) : SyncM H (PeerSt H) := fun m =>
 def peerLastBlock (p : Nat) : SyncM H Int := do return (← peerObj p).lastBlock
 /-- peer.StartingHeight() -/
 def peerStartingHeight (p : Nat) : SyncM H Int := do return (← peerObj p).startHeight
+/-- peer.Connected(): the socket is up and Disconnect() has not been called (the remote end hanging up makes peer.go call
+    Disconnect() on the peer object) -/
+def peerConnected (p : Nat) : SyncM H Bool := do return !(← peerObj p).disc
 /-- peer.Services() -/
 def peerServices (env : Env) (p : Nat) : SyncM H Int := pure (env.services p : Int)
 
